@@ -318,12 +318,18 @@ func RandValue(r *core.Rng, c hist.Column, loc *time.Location) hist.Value {
 		return hist.Value{Enc: val.EncDate(y, m, d), Text: []byte(val.DateText(y, m, d))}
 	case ev.TTime:
 		neg, h, mi, s := randTime(r)
+		if r.Chance(1, 12) {
+			neg, h, mi, s = false, 0, 0, 0
+		}
 		return hist.Value{Enc: val.EncTimeOld(neg, h, mi, s), Text: []byte(val.TimeText(neg, h, mi, s, 0, 0))}
 	case ev.TTime2:
 		neg, h, mi, s := randTime(r)
 		micro := r.Intn(1000000)
 		if r.Chance(1, 4) {
 			micro = 0
+		}
+		if r.Chance(1, 12) {
+			neg, h, mi, s, micro = false, 0, 0, 0, 0 // 00:00:00
 		}
 		fsp := int(meta)
 		tm := micro - micro%pow10(6-fsp)
@@ -334,11 +340,17 @@ func RandValue(r *core.Rng, c hist.Column, loc *time.Location) hist.Value {
 	case ev.TDateTime:
 		y, m, d := randDate(r)
 		h, mi, s := r.Intn(24), r.Intn(60), r.Intn(60)
+		if y == 0 && m == 0 && r.Bool() {
+			h, mi, s = 0, 0, 0 // the all-zero DATETIME (a constant an implementation may share)
+		}
 		return hist.Value{Enc: val.EncDateTimeOld(y, m, d, h, mi, s), Text: []byte(val.DateTimeText(y, m, d, h, mi, s, 0, 0))}
 	case ev.TDateTime2:
 		y, m, d := randDate(r)
 		h, mi, s := r.Intn(24), r.Intn(60), r.Intn(60)
 		micro := r.Intn(1000000)
+		if y == 0 && m == 0 && r.Bool() {
+			h, mi, s, micro = 0, 0, 0, 0 // the all-zero DATETIME
+		}
 		return hist.Value{Enc: val.EncDateTime2(y, m, d, h, mi, s, micro, int(meta)), Text: []byte(val.DateTimeText(y, m, d, h, mi, s, micro, int(meta)))}
 	case ev.TVarchar, ev.TVarString:
 		n := randLen(r, int(meta))
@@ -461,4 +473,29 @@ func randTime(r *core.Rng) (bool, int, int, int) {
 		neg = false
 	}
 	return neg, h, mi, s
+}
+
+// ZeroValue is the all-zero value of a temporal type or YEAR: the value an
+// implementation is most tempted to hand out from a shared constant.
+func ZeroValue(c hist.Column, loc *time.Location) (hist.Value, bool) {
+	fsp := int(c.Meta)
+	switch c.Type {
+	case ev.TTimestamp:
+		return hist.Value{Enc: val.EncTimestampOld(0), Text: []byte(val.TimestampText(0, 0, 0, loc))}, true
+	case ev.TTimestamp2:
+		return hist.Value{Enc: val.EncTimestamp2(0, 0, fsp), Text: []byte(val.TimestampText(0, 0, fsp, loc))}, true
+	case ev.TDateTime:
+		return hist.Value{Enc: val.EncDateTimeOld(0, 0, 0, 0, 0, 0), Text: []byte(val.DateTimeText(0, 0, 0, 0, 0, 0, 0, 0))}, true
+	case ev.TDateTime2:
+		return hist.Value{Enc: val.EncDateTime2(0, 0, 0, 0, 0, 0, 0, fsp), Text: []byte(val.DateTimeText(0, 0, 0, 0, 0, 0, 0, fsp))}, true
+	case ev.TDate, ev.TNewDate:
+		return hist.Value{Enc: val.EncDate(0, 0, 0), Text: []byte(val.DateText(0, 0, 0))}, true
+	case ev.TTime:
+		return hist.Value{Enc: val.EncTimeOld(false, 0, 0, 0), Text: []byte(val.TimeText(false, 0, 0, 0, 0, 0))}, true
+	case ev.TTime2:
+		return hist.Value{Enc: val.EncTime2(false, 0, 0, 0, 0, fsp), Text: []byte(val.TimeText(false, 0, 0, 0, 0, fsp))}, true
+	case ev.TYear:
+		return hist.Value{Enc: []byte{0}, Text: []byte("0000")}, true
+	}
+	return hist.Value{}, false
 }
